@@ -112,7 +112,8 @@ theorem parentCore_safe (lowest : Nat) (o : Obj) (cached : Option Nat) :
     Tri (PsOnly o.pid) (Fe.parentCore (goodCfg r) lowest o cached) (fun _ => True) := by
   unfold Fe.parentCore
   split
-  · exact tri_pure trivial
+  · -- the lowest-PID stop: (since d7107b4) the identity probe first — NoSuchProcess(pid of THIS object) or None
+    exact tri_bind (tri_exc (rootStop_safe r o) (fun _ _ _ h => nspOnly_psOnly h)) (fun _ _ => tri_pure trivial)
   · refine tri_bind (fe_ppid_safe r o) (fun pp _ => ?_)
     refine tri_bind (Q := fun _ => True) ?_ (fun ct _ => parentCoreBlock_safe r o pp ct)
     cases cached with
